@@ -2,9 +2,9 @@
 package c15
 
 import (
-	"net"
 	"encoding/json"
 	"fmt"
+	"net"
 	"net/netip"
 	"os"
 	"strconv"
@@ -235,6 +235,40 @@ func decide(c aCase) (*rp.Fail, verdict) {
 			return rp.Failf(site+"/wrong-value", "%s(%q) = %v, want %v", site, c.S, got.ap, want), v
 		}
 	}
+	if got.err == nil && v == dontCare && got.ap.Addr().Is4() {
+		// a string that is neither of the exact form nor free of dotted quads may be accepted or rejected - but an accepted one
+		// yields what is WRITTEN in it: a port that occurs nowhere in the text (65536 + 60001 read as 60001) or an octet that
+		// does not is an invented value
+		def := map[string]uint16{"bind": 0, "broadcast": 60000, "controller": 60000}
+		port := got.ap.Port()
+		written := func(n uint64) bool {
+			// the number occurs in the text as a maximal digit run with that value (leading zeros allowed)
+			digits := 0
+			var val uint64
+			for i := 0; i <= len(c.S); i++ {
+				if i < len(c.S) && c.S[i] >= '0' && c.S[i] <= '9' {
+					if digits < 18 {
+						val = val*10 + uint64(c.S[i]-'0')
+					}
+					digits++
+					continue
+				}
+				if digits > 0 && digits < 18 && val == n {
+					return true
+				}
+				digits, val = 0, 0
+			}
+			return false
+		}
+		if d, ok := def[c.Role]; !(ok && port == d) && !written(uint64(port)) {
+			return rp.Failf(site+"/invented-value", "%s(%q) = %v: the port %d is written nowhere in the text", site, c.S, got.ap, port), v
+		}
+		for _, o := range got.ap.Addr().As4() {
+			if !written(uint64(o)) {
+				return rp.Failf(site+"/invented-value", "%s(%q) = %v: the octet %d is written nowhere in the text", site, c.S, got.ap, o), v
+			}
+		}
+	}
 	if got.err == nil && v == mustAccept {
 		// formatting and parsing again returns the same address and port
 		again, pnc := parse(c.Role, got.str)
@@ -346,7 +380,7 @@ func TestSweeps(t *testing.T) {
 		b := &bulk{t: t, n: map[string]int64{}, nt: map[string]int64{}, check: "addr"}
 		octets := []string{"0", "1", "255", "256", "01"}
 		seps := [][3]string{{".", ".", "."}, {":", ".", "."}, {".", "..", "."}, {".", ".", ""}, {".", ":", "."}, {"", ".", "."}}
-		ports := []string{"", ":", ":0", ":1", ":59999", ":60000", ":60001", ":65535", ":65536", ":080", ":123456"}
+		ports := []string{"", ":", ":0", ":1", ":59999", ":60000", ":60001", ":65535", ":65536", ":080", ":123456", ":125537", ":65537", ":4295027297", ":18446744073709611617"}
 		junk := []string{"", " ", "x"}
 		idx := 0
 		stride := ev.Pick(10, 1)
@@ -445,7 +479,7 @@ func genCase(t *rapid.T) aCase {
 	switch rapid.IntRange(0, 3).Draw(t, "port") {
 	case 0:
 	case 1:
-		s += ":" + rapid.SampledFrom([]string{"0", "1", "59999", "60000", "60001", "65535", "65536", "99999"}).Draw(t, "p")
+		s += ":" + rapid.SampledFrom([]string{"0", "1", "59999", "60000", "60001", "65535", "65536", "99999", "125537", "65616", "4295027297", "18446744073709611617", "131072"}).Draw(t, "p")
 	default:
 		s += fmt.Sprintf(":%d", rapid.IntRange(0, 65535).Draw(t, "p"))
 	}
